@@ -123,6 +123,12 @@ Section BlsProofs.
   Lemma const_fbasis : forall h0, const (fbasis h0) = 0.
   Proof. intro. unfold Bls.const, fbasis. cbn [fst]. apply Z.mod_0_l. lia. Qed.
 
+  Lemma coef_fgen : forall c h, coef (fgen c) h = 0.
+  Proof. intros. unfold Bls.coef, fgen. cbn [snd coef_terms]. apply Z.mod_0_l. lia. Qed.
+
+  Lemma const_fgen : forall c, const (fgen c) = c mod q.
+  Proof. intros. reflexivity. Qed.
+
   Lemma const_fzero : const fzero = 0.
   Proof. unfold Bls.const, fzero. cbn [fst]. apply Z.mod_0_l. lia. Qed.
 
@@ -444,8 +450,8 @@ Section BlsProofs.
     destruct (form_is0 (s_f sg)) eqn:Hz.
     { split; [discriminate|]. intros (_ & _ & _ & H & _). discriminate. }
     destruct (agg_guard pks) eqn:Hg; cbn [negb].
-    2:{ split; [discriminate|]. intros (_ & _ & _ & _ & H & _). apply agg_guard_iff in H. congruence. }
-    apply agg_guard_iff in Hg.
+    2:{ split; [discriminate|]. intros (_ & _ & _ & _ & H & _). pose proof (proj2 (agg_guard_iff pks) H). congruence. }
+    pose proof (proj1 (agg_guard_iff pks) Hg) as Hg'. clear Hg. rename Hg' into Hg.
     fold (Bls.form_eqb q (agg_sum pks payloads dst) (s_f sg)). rewrite form_eqb_iff.
     split.
     - intro H. repeat split; try assumption; try discriminate; try (apply feq_sym in H; apply H).
@@ -519,12 +525,28 @@ Section BlsProofs.
     destruct (core_aggregate_verify pks payloads sg dst) eqn:H; [|reflexivity].
     apply bls_aggregate_iff in H. destruct H as (_ & _ & _ & _ & _ & He').
     pose proof (feq_trans _ _ _ (feq_sym _ _ He) He') as [Ec E]. specialize (E (dst, m')).
-    rewrite coef_fadd, coef_fadd, coef_scaled_basis, hin_eqb_refl in E.
+    rewrite !coef_fadd, coef_scaled_basis, hin_eqb_refl, coef_fgen in E.
     rewrite coef_agg_sum_notin in E by exact Hn.
-    rewrite !const_fadd, const_scaled_basis, const_agg_sum in Ec.
-    unfold Bls.coef at 2 in E. unfold fgen in E, Ec. cbn [snd coef_terms] in E. unfold Bls.const at 1 in Ec. cbn [fst] in Ec.
-    rewrite (Z.mod_0_l q) in E by lia. rewrite Z.add_0_r, Z.add_0_l in E. rewrite !Z.mod_mod in E by lia.
-    rewrite !Z.add_0_l in Ec. rewrite !Z.mod_mod in Ec by lia.
+    rewrite !const_fadd, const_scaled_basis, const_fgen, const_agg_sum in Ec.
+    rewrite ?Z.add_0_l, ?Z.add_0_r, ?Z.mod_mod in E by lia.
+    rewrite ?Z.add_0_l, ?Z.add_0_r, ?Z.mod_mod in Ec by lia.
     destruct Hb; contradiction.
   Qed.
 End BlsProofs.
+
+(* ---- a concrete instance: order 7, one-byte key encoding; two signers on two messages --------------- *)
+Definition toy_pkenc (a : Z) : list Z := [a].
+
+Lemma bls_toy_instance :
+  1 < 7 /\ (forall a b, length (toy_pkenc a) = length (toy_pkenc b)) /\
+  (exists sg, bls_sign 7 toy_pkenc Pop 3 [1; 2] = Some sg /\ bls_verify 7 toy_pkenc Pop sg (mk_kel true 3) [1; 2] = true) /\
+  core_aggregate_verify 7 [mk_kel true 3; mk_kel true 5] [[1]; [2]]
+    (mk_sel true (fadd (fscale 3 (fbasis (1, [1]))) (fscale 5 (fbasis (1, [2]))))) 1 = true /\
+  core_aggregate_verify 7 [mk_kel true 3; mk_kel true 5] [[1]; [2]]
+    (mk_sel true (fscale 3 (fbasis (1, [1])))) 1 = false /\
+  aggregate_verify 7 toy_pkenc Aug (mk_sel true (fadd (fscale 3 (fbasis (2, [3; 9]))) (fscale 5 (fbasis (2, [5; 9])))))
+    [mk_kel true 3; mk_kel true 5] [[9]; [9]] [] = true.
+Proof.
+  split; [lia|]. split; [reflexivity|]. split; [eexists; split; vm_compute; reflexivity|].
+  repeat split; vm_compute; reflexivity.
+Qed.
